@@ -250,7 +250,7 @@ def gen_instances(seed, si, tier):
                 bad = xg.bad_value(u.decl.type, r) if u.fixed is None else 'other'
                 if bad is not None:
                     aalpha.append((key[0], key[1], bad))
-            for u in t.base.attrs.values() if (not t.base.simple and t.base is not xg.ANYTYPE) else []:
+            for u in t.base.attrs.values() if (t.base is not None and not t.base.simple and t.base is not xg.ANYTYPE) else []:
                 if u.decl.key not in t.attrs:
                     aalpha.append((u.decl.ns, u.decl.local, xg.good_value(u.decl.type)))      # prohibited in the restriction
             # wildcard probes: undeclared attributes that are unqualified, in the target namespace, in two foreign
@@ -707,6 +707,15 @@ def mk_case(cid, cfg, ents, data, dump=1):
 
 
 # ---------------------------------------------------------------------------------------------------------------------
+NEED_RULES = ['content-model-mismatch', 'child-not-allowed', 'required-attribute-missing', 'attribute-not-allowed', 'nil-not-empty', 'nil-not-nillable',
+              'xsitype-not-derived', 'abstract-element', 'text-in-element-only', 'attribute-value-invalid', 'simple-value-invalid', 'strict-wildcard-no-declaration']
+NEED_TAGS = ['all-group', 'wildcard-other', 'substitution-head-particle', 'extension', 'restriction', 'prohibited-attribute', 'content-mixed', 'content-simple', 'content-empty', 'abstract-head']
+
+
+def coverage_gaps(cov):
+    return ['rule never exercised: ' + ru for ru in NEED_RULES if not cov['rules'].get(ru)] + ['schema feature never generated: ' + tg for tg in NEED_TAGS if not cov['tags'].get(tg)]
+
+
 def stage_generated(ck, binary, tier, nproc, cov):
     nschemas = int(os.environ.get('XV_C08_N', 32 if tier == 'quick' else 400))     # XV_C08_N: development knob
     chunk = 32 if tier == 'quick' else 50
@@ -716,7 +725,18 @@ def stage_generated(ck, binary, tier, nproc, cov):
     shr = Shrinker(ck, binary, tier, nproc)
     with ProcessPoolExecutor(nproc) as ex:
         only = [int(x) for x in os.environ.get('XV_C08_SI', '').split(',') if x]      # development knob: explicit schema indices
-        for c0 in range(0, nschemas, chunk):
+        c0 = -chunk
+        while True:
+            c0 += chunk
+            if c0 >= nschemas:
+                # the targeted rules and schema features must all have been exercised: the bound is a number of schemas, and
+                # which of them carries a rare construct depends on the seed -- go on (bounded) until nothing is missing
+                if only or not coverage_gaps(cov) or nschemas >= (4 if tier == 'quick' else 2) * int(os.environ.get('XV_C08_N', 32 if tier == 'quick' else 400)):
+                    break
+                ck.note('coverage gaps after %d schemas (%s): 16 more' % (nschemas, '; '.join(coverage_gaps(cov))))
+                nschemas += 16
+                chunk = 16
+                c0 = nschemas - 16
             sis = list(range(c0, min(nschemas, c0 + chunk))) if not only else (only if c0 == 0 else [])
             if not sis:
                 break
@@ -1022,14 +1042,7 @@ def run(tier):
     ck.cov['schemas'] = cov.get('nschemas', 0)
     ck.cov['psvi_validity_flag_not_valid_on_error_free_instances'] = dict(PSVI_VALIDITY_OBS)
     if 'generated' in stages:
-        need_rules = ['content-model-mismatch', 'child-not-allowed', 'required-attribute-missing', 'attribute-not-allowed', 'nil-not-empty', 'nil-not-nillable',
-                      'xsitype-not-derived', 'abstract-element', 'text-in-element-only', 'attribute-value-invalid', 'simple-value-invalid', 'strict-wildcard-no-declaration']
-        for ru in need_rules:
-            if not rules_seen.get(ru):
-                ck.inconclusive.append('rule never exercised: ' + ru)
-        for tg in ['all-group', 'wildcard-other', 'substitution-head-particle', 'extension', 'restriction', 'prohibited-attribute', 'content-mixed', 'content-simple', 'content-empty', 'abstract-head']:
-            if not tags.get(tg):
-                ck.inconclusive.append('schema feature never generated: ' + tg)
+        ck.inconclusive += coverage_gaps(cov)
     if core.WATCHDOG_FALSE_ALARMS:
         ck.cov['watchdog_false_alarms'] = len(core.WATCHDOG_FALSE_ALARMS)
     ck.assumptions = ['generated schemas are UPA-clean and valid by construction (checked by the generator: no two particles of a content model can match one name)',
